@@ -198,7 +198,8 @@ def plan(prop, tier):
         P += S("release", "hist", n=8000 if q else 50000, shards=8, profile="partition")
         P += S("debug", "hist", n=2500 if q else 12000, shards=2, profile="partition")
         P += S("release", "sets", n=300 if q else 4000, shards=2)
-        P += S("release", "dropbomb", n=300 if q else 5000, shards=2) + S("debug", "dropbomb", n=100 if q else 1000)
+        P += S("release", "dropbomb", n=600 if q else 5000, shards=2) + S("debug", "dropbomb", n=200 if q else 1000)
+        P += S("release", "zst", depth=4)
     elif prop == "C10":
         P += S("release", "sentinels") + S("debug", "sentinels")
         P += S("release", "hist", n=8000 if q else 50000, shards=6, profile="capacity")
